@@ -98,7 +98,18 @@ RULE = ("fake-integrator cases: random entry point (integrateFuncJac, integrate2
         "scipy.integrate.ode based entry points on a zero-length step is tagged, not judged). A session is non-trivial when every "
         "reference moved by >1e-3, at least one solve was judged and (history, siblings) at least one changed configuration has a "
         "reference differing by >1e-3 from the first one's. Sessions sit near the origin or (30 %) far from it (tbase +-738000, +-1e4, 1e6, "
-        "-1e6, -123456.5); a quarter of their generated models are first order in the states, a fifth time-dependent")
+        "-1e6, -123456.5); a quarter of their generated models are first order in the states, a fifth time-dependent. "
+        "WIDE-RATIO GRIDS (round d; `wide` runtime cases, t0 in {0, 1/2, -1, 3}, generated models of 8 families, every non-stiff catalogue "
+        "member and the scaled ones, all 43 configurations): log-spaced t0 + T 10^linspace(-d, 0, n) with d in {3, 4, 5, 6, 8, 10}, n = 5..25 "
+        "(ratio longest gap / first gap 1e2 .. 1e11); a first time T 10^-d after t0 followed by n uniform times; a fine burst T 10^-d (1, 2, 3) "
+        "followed by uniform times; every sixth case the stiff catalogue member Robertson on its DOCUMENTED grid 4*logspace(-6, e, n), "
+        "e in {2, 4, 6}, n in {13, 25, 37, 61} (e = 2: odeint / lsoda / bdf entry points; e > 2: the odeint-based entry points integrate "
+        "and solve_determ only - the documentation and the repository's tests run `integrate` there; the ode-based ones give up with "
+        "IntegrationError at nsteps = 10000, rtol = 1e-10 on the unchanged tree) - tags wide-grid:*, gap-ratio:1e<k>. "
+        "SCALES (`scaled` catalogue, on the ordinary and on the wide grids): the catalogue equations on head counts (SIR N = 1e6, 1e8; SEIR "
+        "N = 1e7; SIR_norm with a mass-action rate of 5e-9 per person) and on tiny fractions (SIR_norm with I0 = 1e-4, 1e-6); acceptance "
+        "|row - ref| <= acc (floor + |ref|) with floor = 1 except for the tiny-valued members (floor = 1e-4, 1e-5: relative per entry down to "
+        "the smallest component of interest; acc = max(1e-6, 20 x the error of scipy's own solver on the instance in that metric))")
 ASSUMPTIONS = ["PARTIAL: scipy's integrators (odeint; ode: lsoda/vode/dopri5/dop853) approximate the flow within tolerance - a "
                "hypothesis of the Lean theorems (Laws S: identity + semigroup of an ideal flow), validated on every run: "
                "|row - ref| <= 1e-6 (1+|ref|) against solve_ivp DOP853 rtol=atol=1e-12 (Radau cross-check <= 1e-8 on a subset)",
